@@ -1,5 +1,5 @@
 """Property -> rules table.  Rules are functions (ctx, repo)."""
-from .rules import ndim, iface, wrappers, rng, mech, errmodels, popmodels, switch, copies, cursors, reduced, layout, noise, filters, caches, problems, dosing, sbml, predictive, inference
+from .rules import ndim, iface, wrappers, rng, mech, errmodels, popmodels, switch, copies, cursors, reduced, layout, noise, filters, caches, problems, dosing, sbml, predictive, inference, plots
 
 PROPS = {}
 
@@ -391,6 +391,26 @@ prop('C19',
                  'state its use requires, whatever evaluation ran before; a '
                  'rebuilt simulator keeps the dosing protocol and a '
                  'consistent sensitivity flag.')
+
+prop('C20',
+     [plots.r20_1, plots.r20_2, plots.r20_3],
+     undecided=['rank / percentile arithmetic: that the limits enclose at '
+                'least the requested fraction and that bands are nested',
+                'plotly rendering'],
+     assumptions=COMMON_ASSUME + [
+         'pandas boolean-mask row selection; unique()/to_numpy() keep the '
+         'row order of the frame'],
+     technique='row-filter provenance of the trace arguments, alias / '
+               'write-through rule on the data argument, def-use and '
+               'order-provenance rule on the band polygon and on the rank '
+               'normalisation',
+     explanation='Decides that each marker trace receives exactly the rows '
+                 '{chosen observable, own ID} (dose traces {dose not null, '
+                 'own ID}) with x and y from the same filtered frame, that '
+                 'the caller\'s frame is never written, that the band '
+                 'polygon is [t, reversed t] x [upper, reversed lower] with '
+                 'all three sequences in the frame\'s row order, and that '
+                 'percentile ranks are taken within each time point.')
 
 # properties not claimed (yet), with the reason printed in MANIFEST.json
 NOT_CLAIMED = {}
